@@ -54,7 +54,10 @@ Docs ==
              Fld(4, "dl", << Fld(5, "r", <<>>) >>),
              Fld(6, "it", << Fld(7, "x", <<>>), Inl(8, "TB", << Fld(9, "q", <<>>) >>) >>),
              Fld(10, "itl", << Fld(11, "__typename", <<>>) >>),
-             Fld(12, "ta", << Fld(13, "p", <<>>) >>) >>)
+             Fld(12, "ta", << Fld(13, "p", <<>>) >>) >>),
+     \* 7: lists of enum values (nullable and non-null list), union resolved through IsTypeOf
+     QDoc(<< Fld(1, "a", <<>>), Fld(2, "el", <<>>), Fld(3, "eln", <<>>), Fld(4, "e", <<>>),
+             Fld(5, "uo", << Fld(6, "__typename", <<>>), Inl(7, "TA", << Fld(8, "p", <<>>) >>) >>) >>)
   >>
 
 Site(t, f, src, kind) == [t |-> t, f |-> f, src |-> src, kind |-> kind]
@@ -75,14 +78,18 @@ Sites ==
         Site("M", "b", "*", "int") >>,
      << Site("Q", "d", "*", "obj"), Site("Q", "dl", "*", "list"), Site("Q", "it", "*", "absT"),
         Site("Q", "itl", "*", "absTlist"), Site("Q", "ta", "*", "objT"), Site("TA", "x", "r.it", "str"),
-        Site("TB", "q", "r.it", "str") >>
+        Site("TB", "q", "r.it", "str") >>,
+     << Site("Q", "a", "*", "int"), Site("Q", "el", "*", "enumlist"), Site("Q", "eln", "*", "enumlist"),
+        Site("Q", "e", "*", "enum"), Site("Q", "uo", "*", "absU") >>
   >>
 
 K(k) == [k |-> k]
-TKinds == {"absT", "absTlist", "objT"}
+TKinds == {"absT", "absTlist", "objT", "enumlist", "absU"}
 TAlpha(kind) ==
   CASE kind = "absT" -> { K("nil"), K("err"), [k |-> "val", rt |-> "TB"], [k |-> "val", rt |-> "O"], [k |-> "val", rt |-> "-"], K("wrong") }
     [] kind = "absTlist" -> { K("nil"), [k |-> "val", rts |-> <<"TB", "TA">>], [k |-> "val", rts |-> <<"TA", "A">>], K("nilitem") }
+    [] kind = "enumlist" -> { K("nil"), K("err"), K("nilitem"), K("wrongitem"), K("wrong"), K("thunk") }
+    [] kind = "absU" -> { K("nil"), [k |-> "val", rt |-> "*"], [k |-> "val", rt |-> "TA"], [k |-> "val", rt |-> "A"], [k |-> "val", rt |-> "-"] }
     [] kind = "objT" -> { K("nil"), K("err"), [k |-> "val", rt |-> "TB"], K("typednil") }
 
 SiteAlpha(kind) ==
